@@ -106,6 +106,22 @@ pub fn run(seed: u64, n: usize, outdir: &str, _corpus: Option<&str>) -> std::io:
             let rows = |b: &Vec<u8>| String::from_utf8_lossy(b).lines().count();
             (t, (rows(&br), rows(&bl)))
         } else { ("Err".to_string(), (0, 0)) };
+        // the generated files themselves (for the correspondence with the model of generate_bigram_info)
+        let files_t = if oc == 0 {
+            let rows_t = |b: &Vec<u8>| -> String {
+                let txt = String::from_utf8_lossy(b).to_string();
+                let v: Vec<Vec<String>> = txt.lines().map(|l| l.split_once('\t').map_or(vec![], |x| x.1.split(',').map(|c| c.to_string()).collect())).collect();
+                clist(&v, |r| clist(r, |x| cstr(x)))
+            };
+            let ids_ok = |b: &Vec<u8>| String::from_utf8_lossy(b).lines().enumerate().all(|(i, l)| l.split_once('\t').map_or(false, |x| x.0 == format!("{}", i + 1)));
+            let costs: Vec<(String, String, i64)> = String::from_utf8_lossy(&bc).lines().filter_map(|l| {
+                let (f, c) = l.split_once('\t')?; let (a, b) = f.split_once('/')?; Some((a.to_string(), b.to_string(), c.parse().ok()?))
+            }).collect();
+            let ncost = String::from_utf8_lossy(&bc).lines().count();
+            if ids_ok(&br) && ids_ok(&bl) && ncost == costs.len() {
+                format!("(Some ({}, {}, {}))", rows_t(&br), rows_t(&bl), clist(&costs, |(a, b, c)| format!("({}, {}, {})", cstr(a), cstr(b), cz(*c))))
+            } else { "None".to_string() }
+        } else { "None".to_string() };
         let wq = |w: &str| -> (i64, u32) {
             let neg = w.starts_with('-');
             let w2 = w.trim_start_matches('-');
@@ -115,12 +131,12 @@ pub fn run(seed: u64, n: usize, outdir: &str, _corpus: Option<&str>) -> std::io:
         };
         let ctab = |t: &Vec<(u32, Vec<String>)>| clist(t, |(id, f)| format!("({}, {})", id, clist(f, |x| cstr(x))));
         let term = format!(
-            "(Build_c20case (Build_mecab_in {} {} {} {} {}) {} {} ({}, {}))",
+            "(Build_c20case (Build_mecab_in {} {} {} {} {}) {} {} ({}, {}) {})",
             clist(&tpls, |(l, r)| format!("({}, {})", cstr(&render_tpl(l, 'L')), cstr(&render_tpl(r, 'R')))),
             if malformed_line { "[(0, [[120]])]".to_string() /* a table that is not well-formed: forces the error expectation */ } else { ctab(&rdef) },
             ctab(&ldef),
             clist(&lines, |(w, t)| { let (n, e) = wq(w); format!("({}, {}, {})", cz(n), e, cstr(t)) }),
-            cz(factor), oc, conn_t, dims.0, dims.1
+            cz(factor), oc, conn_t, dims.0, dims.1, files_t
         );
         *dist.entry(format!("outcome_{}", oc)).or_default() += 1;
         *dist.entry(format!("templates_{}", nt)).or_default() += 1;
